@@ -98,6 +98,10 @@ class SetModel(explorer.Model):
             return tuple(vals)
         if kind == 'gen':
             return (v for v in vals)
+        if kind == 'set':
+            return set(vals)
+        if kind == 'fset':
+            return frozenset(vals)
         if kind == 'self':
             return world.s
         raise ValueError(kind)
@@ -394,8 +398,10 @@ class SetModel(explorer.Model):
 
         self.check_state(ctx, w, case0, mkbad(['state']))
         rs = set(r)
-        for kind in ('oset', 'qset', 'list', 'tuple', 'gen'):
+        for kind in ('oset', 'qset', 'list', 'tuple', 'gen', 'set', 'fset'):
             for e in self.operands:
+                if kind in ('set', 'fset') and e != sorted(e):
+                    continue        # an unordered operand: one per subset
                 self.probe(ctx, w, ['probe', 'all', kind, e], mkbad)
         # repr round trip
         rep = repr(s)
@@ -428,8 +434,8 @@ class SetModel(explorer.Model):
             checks.append(('lt', lambda: s < operand(), rs < os_))
             checks.append(('ge', lambda: s >= operand(), rs >= os_))
             checks.append(('gt', lambda: s > operand(), rs > os_))
-        if kind == 'gen':
-            checks = []        # a one-shot iterator is an operand of the algebra below only (it is no collection to compare with)
+        if kind in ('gen', 'set', 'fset'):
+            checks = []        # one-shot iterators and unordered sets are operands of the algebra below only
         for nm, fn, exp in checks:
             ctx.count('probes')
             try:
@@ -443,6 +449,13 @@ class SetModel(explorer.Model):
                    ('and', lambda: s & operand(), rs & os_),
                    ('sub', lambda: s - operand(), rs - os_),
                    ('xor', lambda: s ^ operand(), rs ^ os_)]
+        if kind in ('list', 'tuple', 'set', 'fset'):
+            # the set as RIGHT operand of a plain collection (reflected operators; for built-in sets python tries the left
+            # operand's own operator first, which either answers with a built-in set or defers)
+            algebra += [('ror', lambda: operand() | s, os_ | rs),
+                        ('rand', lambda: operand() & s, os_ & rs),
+                        ('rsub', lambda: operand() - s, os_ - rs),
+                        ('rxor', lambda: operand() ^ s, os_ ^ rs)]
         for nm, fn, exp in algebra:
             ctx.count('probes')
             try:
